@@ -7,6 +7,7 @@ package c04
 import (
 	"bytes"
 	"encoding/json"
+	"errors"
 	"fmt"
 	"io"
 	"strconv"
@@ -89,6 +90,9 @@ type Prog struct {
 	// Pre: a body API the handler calls first (with other data) and then overrides with Body - a handler that changes its
 	// mind, e.g. an error after the stream was set up. One of BSetBody, BRaw, BStreamLen, BStreamChunked; 0 = none.
 	Pre int `json:"pre,omitempty"`
+	// PreCloseErr: the stream set first (Pre = BStreamLen / BStreamChunked) is an io.Closer whose Close reports an error (an
+	// upstream that is already gone); the override has to get rid of it all the same
+	PreCloseErr bool `json:"pre_close_err,omitempty"`
 	// BigHead: the handler sets a 5000-byte header field first, so that the response head does not fit a 4 KiB buffer node
 	BigHead bool `json:"big_head,omitempty"`
 }
@@ -147,6 +151,11 @@ func (r *chunkReader) Read(p []byte) (int, error) {
 	r.b = r.b[n:]
 	return n, nil
 }
+
+// failCloser: a body stream whose Close fails.
+type failCloser struct{ io.Reader }
+
+func (failCloser) Close() error { return errors.New("upstream already gone") }
 
 func (p Prog) want(salt byte) []byte {
 	switch p.Body {
@@ -230,10 +239,16 @@ func (p Prog) run(ctx *app.RequestContext, salt byte) {
 			ctx.Response.SetBody(other)
 		case BRaw:
 			ctx.Response.SetBodyRaw(other)
-		case BStreamLen:
-			ctx.SetBodyStream(&chunkReader{b: other}, len(other))
-		case BStreamChunked:
-			ctx.SetBodyStream(&chunkReader{b: other}, -1)
+		case BStreamLen, BStreamChunked:
+			var r io.Reader = &chunkReader{b: other}
+			if p.PreCloseErr {
+				r = failCloser{r}
+			}
+			n := len(other)
+			if p.Pre == BStreamChunked {
+				n = -1
+			}
+			ctx.SetBodyStream(r, n)
 		}
 	}
 	switch p.Body {
@@ -519,6 +534,11 @@ func programs(thorough bool) []Prog {
 					}
 					for _, n := range []int{0, 5, 4097} {
 						out = append(out, Prog{Status: st, Body: b, Size: n, Close: cl, Pre: pre})
+						// (for a status without a body String / Data leave the stream in place; a stream that stays the body and
+						// whose Close fails makes the write fail - the application's own error, not an override)
+						if (pre == BStreamLen || pre == BStreamChunked) && n != 0 && st >= 200 && st != 204 && st != 304 {
+							out = append(out, Prog{Status: st, Body: b, Size: n, Close: cl, Pre: pre, PreCloseErr: true})
+						}
 					}
 				}
 			}
